@@ -523,6 +523,16 @@ pub fn run(seed: u64, thorough: bool, rep: &mut Report) {
                         }
                     }
                 }
+                // C02: a tracker (what get_appointment reports as `dispute_responded`) exists only for a penalty the node
+                // has been handed or already had: also in the database the process left behind
+                {
+                    let in_chain: BTreeSet<u32> = w.live.sys.chain.iter().flat_map(|b| b.3.iter().cloned()).collect();
+                    for (k, tr) in after.trackers.iter() {
+                        if !w.sent.contains(&tr.1) && !in_chain.contains(&tr.1) {
+                            rep.fail("C02", "responded_before_the_node_was_given_the_penalty", &format!("after the crash in op {i} ({op:?}) point {j} tracker {k:?} is in the database although penalty t{} was never handed to the node and is not in the chain", tr.1 * 16));
+                        }
+                    }
+                }
                 // no dangling records
                 for k in after.trackers.keys() {
                     if !after.appts.contains_key(k) {
@@ -614,7 +624,7 @@ pub fn run(seed: u64, thorough: bool, rep: &mut Report) {
                             // not tracked, and its penalty had been handed to the node and got confirmed (the appointment itself
                             // is still held, unless a later request of its owner replaced or dropped it: without a tracker
                             // the tower treats it as an ordinary appointment whose dispute is in the cache)
-                            !fin.trackers.contains_key(k) &&
+                            !fin.trackers.contains_key(k) && (fin.appts.contains_key(k) || ops[i + 1..].iter().any(|o| matches!(o, XOp::Add { user, loc, .. } if (*loc, *user) == *k))) &&
                             // (the blob as it was when the process died: without a tracker a later submission may replace it)
                             match before.appts.get(k).or(fin.appts.get(k)).and_then(|a| w.live.sys.blobs.get(&a.0)) {
                                 Some(BlobSpec::Enc { penalty, .. }) => w.sent.contains(penalty) && confirmed.contains(penalty),
